@@ -50,7 +50,10 @@ def apply(d, m):
 
 def run_tests(d):
     env = dict(os.environ, PYTHONPATH=os.path.join(d, "src"), PYTHONDONTWRITEBYTECODE="1")
-    r = subprocess.run(["/venv/bin/python", "-m", "pytest", "-q", "-x", "-p", "no:cacheprovider", "tests"], cwd=d, env=env, capture_output=True, text=True)
+    try:
+        r = subprocess.run(["/venv/bin/python", "-m", "pytest", "-q", "-x", "-p", "no:cacheprovider", "tests"], cwd=d, env=env, capture_output=True, text=True, timeout=180)
+    except subprocess.TimeoutExpired:
+        return False, "test-suite timed out (hang)"
     tail = (r.stdout.strip().splitlines() or [""])[-1]
     return r.returncode == 0, tail
 
